@@ -278,7 +278,7 @@ macro_rules! ins_case {
         ok
     }};
 }
-/// @harness id=c17_insertion_templates props=C17 unwind=60 mem=10 cap=1800
+/// @harness id=c17_insertion_templates props=ATTEMPT tier=thorough unwind=60 mem=10 cap=1800
 /// get_function_param_insertion_info + the edit derived from it on signature templates, executed one after the other
 /// (concretely): no parameter, one parameter, method, async + annotation, multi-line without trailing comma — the
 /// edited text must be the same function with `fx` appended as a parameter.
@@ -295,7 +295,7 @@ pub fn c17_insertion_templates() {
     check!("c17.insertion.multi_line", ins_case!("def test_a(\n    x\n):\n    pass\n", 1, "def test_a(\n    x\n, fx):\n    pass\n"));
     reach!("c17.insertion.end");
 }
-/// @harness id=c17_insertion_known_gaps props=C17 unwind=60 mem=10 cap=1800
+/// @harness id=c17_insertion_known_gaps props=ATTEMPT tier=thorough unwind=60 mem=10 cap=1800
 /// the signature forms on which the text search is known to go wrong: return annotation (the next function is
 /// edited), trailing comma in a multi-line signature (`,,`).
 #[cfg_attr(kani, kani::proof)]
